@@ -1,7 +1,7 @@
 (* C10 — Progress after stabilisation: leader elected, logs converge, proposals commit.
    Only pinned statements (generated verbatim from the proof files by
    tools_c10/genprops.py) and non-vacuity Examples; proofs live in M/RaftProofsC10.v,
-   M/RaftProofsC10Pair.v and M/RaftProofsC10Star.v.  The models M/Raft.v, M/Progress.v, M/Inflights.v, M/RaftLog.v
+   M/RaftProofsC10Pair.v, M/RaftProofsC10Star.v and M/RaftProofsC10Prop.v.  The models M/Raft.v, M/Progress.v, M/Inflights.v, M/RaftLog.v
    are taken as given.
 
    WHAT THE PROPERTY SAYS AND WHAT CAN BE A THEOREM.
@@ -164,28 +164,61 @@
       Replicate with a FULL window of stale indexes); sp_run computes the 191 rounds: no
       panic, everybody has the 5 entries and commit index 5.
 
+   8. star_propose_all (M/RaftProofsC10Prop.v): the PROPOSAL clause, at Raft level.  Two
+      steps are added to the schedule: the application steps one MsgPropose with a normal
+      entry into the leader (prop_msg; step_propose: for a leader that tracks itself, has no
+      transfer pending and no uncommitted-size limit, Raft::step appends the stamped entry
+      and runs bcast_append), and the leader PERSISTS its unstable entries - what the
+      application does with the Ready that carries them - persist_leader =
+      MemStorage::append, RaftLog::stable_entries, Raft::on_persist_entries (the three model
+      functions, in that order; propose_persist_parts decomposes the two steps and shows
+      the log keeps its representation invariant; on_persist_own: the leader's own Progress
+      gets matched = last_index + 1).  The followers' persistence is abstracted as in the
+      pair theorem.
+      star_propose_all: a star that starts as in star_convergence runs its N0 rounds and
+      reaches a converged state in which, in addition (all stated as hypotheses on that
+      state): the leader's log is well formed with no pending snapshot, it has no
+      uncommitted-size limit, its own matched = last_index, EVERY FOLLOWER'S LOG ENDS AT
+      THE LEADER'S LAST INDEX (it holds nothing above it - true of a converged follower
+      whose last_index equals the leader's; without it an old entry above last_index could
+      sit where the new one goes, and the agreement invariant says nothing about it), the
+      voters are the leader and some followers, at least one follower is a voter (so that
+      the all-voters form of the quorum argument applies: the commit happens when the last
+      voter acknowledges).  After propose + persist and N1 + K more star rounds
+      (N1 = (heartbeat_timeout + 2) * pair_measure_bound (last_index + 1) matched0 for every
+      follower, K >= heartbeat_timeout + 1): committed L = last_index + 1, and for every
+      follower matched = last_index + 1, its log agrees with the leader's NEW log up to
+      last_index + 1 (same term at the new index) and its commit index is last_index + 1.
+      The invariant form (from any state satisfying the star invariant) is star_propose in
+      the proof file.  Agreement is on (index, term); that the DATA of the entry is the
+      proposed one follows from Raft's Log Matching and is shown on the example only.
+      Non-vacuity: C10_propose_applies instantiates every hypothesis on the 3-node star
+      after its 191 rounds; C10_propose_run computes propose + persist + 251 rounds: entry 6
+      with data [42] is in all three logs and committed everywhere.
+      HAND-OUT (remark, not re-proved here): once the commit index has moved, RawNode::ready
+      hands the application exactly the committed, persisted, not yet applied entries
+      (C07_handout_range, C07_handout_abs, C07_handout_persisted_only, C07_handout_bound),
+      so the new entry is handed out on every member at its next Ready.
+
    NOT PROVED (beyond the items marked above).
    * the probabilistic clause: eventually exactly one leader (see top);
    * whole-cluster convergence BEYOND the star: the followers only talk to the leader
-     (no second leader, no candidate, no message between followers), L's own log must
-     already be persisted (own matched = last_index) for the commit clause;
-   * "a newly proposed entry is committed and handed to the application on every running
-     member": no proposal arrives during the star run.  Not done because (a) after a
-     proposal the leader's own matched lags until on_persist_entries, so the commit needs the
-     MAJORITY form of the quorum argument (only the all-voters form is proved), and the
-     persistence step lives at RawNode level; (b) a follower may still hold old entries
-     ABOVE the leader's former last index, about which the agreement invariant says nothing.
-     Application hand-over (commit_apply / Ready) is not modelled in the schedule;
+     (no second leader, no candidate, no message between followers);
+   * the proposal clause with a majority only (a voter that never answers): the commit
+     argument used is the all-voters form; with several proposals in flight; with an
+     uncommitted-size limit; with conf-change entries; the equality of the entry DATA on
+     the followers (only index and term are tracked); the RawNode-level schedule
+     (Ready / persist / advance / apply) - the hand-out is cited from C07, not composed
+     with the run;
    * the pair / star theorems with messages already in flight at the start, with
      batch_append, with check_quorum, with pending read-index requests, with a compacted
-     leader log (snapshot path inside the run), with a pending window shrink; RawNode-level
-     (Ready / persist / advance) scheduling;
+     leader log (snapshot path inside the run), with a pending window shrink;
    * "within a bounded number of ELECTION timeouts": the bounds are in rounds (ticks),
      quadratic in last_index; no attempt at the tight bound. *)
 From RV Require Import Base.Prelude Base.IdSet M.Util M.Proto M.MemStorage M.MemStorageProofs
   M.Inflights M.InflightsProofs M.Progress M.RaftLog M.RaftLogProofs M.Quorum M.ConfChange
   M.Msg M.Raft M.RaftProofs M.RaftProofsC15 M.RaftProofsC09 M.RaftProofsC10 M.RaftProofsC10Pair
-  M.RaftProofsC10Star.
+  M.RaftProofsC10Star M.RaftProofsC10Prop.
 From RV Require M.QuorumProofs.
 From RecordUpdate Require Import RecordSet.
 Import RecordSetNotations.
@@ -797,6 +830,80 @@ Proof. exact star_commit_all. Qed.
 Print Assumptions C10_star_commit_all.
 
 
+(* ---- 8. the proposal clause ---- *)
+(* Raft::step on the proposal; the leader through propose + persist; its own Progress after the report *)
+Theorem C10_step_propose :
+  forall L d ps,
+  r_state L = Leader -> get_pr L (r_id L) = Some ps -> r_lead_transferee L = None ->
+  r_max_uncommitted_size L = u64_max ->
+  step L (prop_msg d) =
+  (x <- log_append (r_log L) [new_ent L d] ;;
+   r3 <- bcast_append (L <| r_log := fst x |>) ;; Ok (r3, E_OK)).
+Proof. exact step_propose. Qed.
+Print Assumptions C10_step_propose.
+
+Theorem C10_propose_persist_parts :
+  forall rwl L d ps L2,
+  r_state L = Leader -> get_pr L (r_id L) = Some ps -> r_lead_transferee L = None ->
+  r_max_uncommitted_size L = u64_max ->
+  RepInv rwl (r_log L) -> u_snapshot (unst (r_log L)) = None ->
+  committed (r_log L) <= last_index (r_log L) -> last_index (r_log L) + 1 < u64_max ->
+  r_term L <> 0 ->
+  propose_persist L d = Ok L2 ->
+  let LL1 := ll_append (abs (r_log L)) [new_ent L d] in
+  let last1 := last_index (r_log L) + 1 in
+  exists lg1 L1 lg2,
+    RepInv rwl lg1 /\ abs lg1 = LL1 /\ committed lg1 = committed (r_log L) /\
+    bcast_append (L <| r_log := lg1 |>) = Ok L1 /\ r_log L1 = lg1 /\
+    RepInv rwl lg2 /\ abs lg2 = LL1 /\ committed lg2 = committed (r_log L) /\
+    maybe_persist lg2 last1 (r_term L) = Ok (set_persisted lg2 last1, true) /\
+    RepInv rwl (set_persisted lg2 last1) /\
+    on_persist_entries (L1 <| r_log := lg2 |>) last1 (r_term L) = Ok L2.
+Proof. exact propose_persist_parts. Qed.
+Print Assumptions C10_propose_persist_parts.
+
+Theorem C10_on_persist_own :
+  forall r idx t lg r' ps,
+  on_persist_entries r idx t = Ok r' ->
+  maybe_persist (r_log r) idx t = Ok (lg, true) -> r_state r = Leader ->
+  get_pr r (r_id r) = Some ps -> matched ps < idx ->
+  (exists p, get_pr r' (r_id r) = Some p /\ matched p = idx) /\
+  committed (r_log r') <= N.max (committed lg) (last_index lg).
+Proof. exact on_persist_own. Qed.
+Print Assumptions C10_on_persist_own.
+
+Theorem C10_star_propose_all :
+    forall (L : raft) (Fs : list raft) (rwl rwf : bool) (N0 : nat) (Lc : raft) (Fsc : list raft)
+         (pl : progress) (d : list N) (L2 : raft) (N1 K : nat) (L' : raft) (Fs' : list raft),
+  (* the first run *)
+  star_leader L rwl -> Fs <> [] -> NoDup (map r_id Fs) -> Forall (star_start L rwf) Fs ->
+  (forall F, In F Fs ->
+     (N.to_nat (r_heartbeat_timeout L + 2) *
+      N.to_nat (pair_measure_bound (last_index (r_log L)) (start_matched L (r_id F))) <= N0)%nat) ->
+  star_rounds N0 L Fs = Ok (Lc, Fsc) ->
+  (* the converged state *)
+  RepInv rwl (r_log Lc) -> u_snapshot (unst (r_log Lc)) = None ->
+  last_index (r_log L) + 1 < u64_max -> r_max_uncommitted_size Lc = u64_max ->
+  (forall Fc, In Fc Fsc -> last_index (r_log Fc) = last_index (r_log L)) ->
+  get_pr Lc (r_id L) = Some pl -> matched pl = last_index (r_log L) ->
+  incoming (conf_of Lc) <> [] ->
+  (forall v, In v (incoming (conf_of Lc)) \/ In v (outgoing (conf_of Lc)) ->
+             v = r_id L \/ In v (map r_id Fsc)) ->
+  (exists Fc, In Fc Fsc /\
+     (In (r_id Fc) (incoming (conf_of Lc)) \/ In (r_id Fc) (outgoing (conf_of Lc)))) ->
+  (* the proposal, the persistence, the second run *)
+  propose_persist Lc d = Ok L2 ->
+  (forall F, In F Fs ->
+     (N.to_nat (r_heartbeat_timeout L + 2) *
+      N.to_nat (pair_measure_bound (last_index (r_log L) + 1) (start_matched L (r_id F))) <= N1)%nat) ->
+  (N.to_nat (r_heartbeat_timeout L + 1) <= K)%nat ->
+  star_rounds (N1 + K) L2 Fsc = Ok (L', Fs') ->
+  committed (r_log L') = last_index (r_log L) + 1 /\
+  Forall2 (prop_done L Lc d L') Fsc Fs'.
+Proof. exact star_propose_all. Qed.
+Print Assumptions C10_star_propose_all.
+
+
 (* ---- non-vacuity ---- *)
 
 (* 6: every hypothesis of pair_convergence holds of a concrete pair: leader 1 (term 2,
@@ -906,3 +1013,28 @@ Example C10_star_run :
     last_index (r_log F2') = 5 /\ committed (r_log F2') = 5 /\
     last_index (r_log F3') = 5 /\ committed (r_log F3') = 5.
 Proof. exact sp_run. Qed.
+
+(* 8: the 3-node star, continued: after its 191 rounds (state pp_Lc, pp_Fsc) every hypothesis
+   of star_propose_all holds; 251 = (heartbeat_timeout + 2) * pair_measure_bound 6 0 +
+   heartbeat_timeout + 1 *)
+Example C10_propose_applies :
+  forall L2 L' Fs',
+  propose_persist pp_Lc [42] = Ok L2 ->
+  star_rounds (248 + 3) L2 pp_Fsc = Ok (L', Fs') ->
+  committed (r_log L') = last_index (r_log sp_L) + 1 /\
+  Forall2 (prop_done sp_L pp_Lc [42] L') pp_Fsc Fs'.
+Proof. exact pp_applies. Qed.
+
+(* and it all runs (computed): the first run, propose + persist, the second run; the proposed
+   entry (data [42]) is entry 6 of all three logs and everybody has committed it *)
+Example C10_propose_run :
+  star_rounds (188 + 3) sp_L [sp_F2; sp_F3] = Ok (pp_Lc, pp_Fsc) /\
+  propose_persist pp_Lc [42] = Ok pp_L2 /\
+  star_rounds (248 + 3) pp_L2 pp_Fsc = Ok pp_end /\
+  committed (r_log (fst pp_end)) = 6 /\
+  map (fun F => log_entries (r_log F) 6 None) (fst pp_end :: snd pp_end) =
+    [Ok (SOk [mkEntry EntryNormal 2 6 [42] []]); Ok (SOk [mkEntry EntryNormal 2 6 [42] []]);
+     Ok (SOk [mkEntry EntryNormal 2 6 [42] []])] /\
+  map (fun F => committed (r_log F)) (snd pp_end) = [6; 6] /\
+  map r_id (snd pp_end) = [2; 3].
+Proof. split; [exact pp_mid_ok|]. split; [exact pp_L2_ok|exact pp_run]. Qed.
